@@ -175,6 +175,8 @@ var (
 	c12Once  sync.Once
 	c12Dir   string
 	c12Insts = map[string]*casket.Instance{}
+	c12Base     = map[string]string{} // per site: what a fresh instance answered to the follow-up requests
+	c12BaseLive = map[string]string{}
 )
 
 // template sources used as written bodies and as files: only {{.Method}} is used as an action
@@ -310,6 +312,13 @@ func c12Instance(stackField string) (*httpserver.Server, *casket.Instance, error
 			return nil, nil, err
 		}
 		c12Insts[key] = inst
+		// the answers of the fresh site to the follow-up requests
+		for _, s := range casket.VerifServers(inst) {
+			if hs, ok := s.(*httpserver.Server); ok {
+				c12Base[key] = c12FollowUps(hs)
+				delete(c12BaseLive, key)
+			}
+		}
 	}
 	for _, s := range casket.VerifServers(inst) {
 		if hs, ok := s.(*httpserver.Server); ok {
@@ -439,6 +448,47 @@ func c12PathAndBody(pathField, script string) (string, []byte, bool) {
 	return "/x" + ext, nil, true
 }
 
+// c12Observe serves one request in-process and returns commits, status, Content-Length state, body.
+func c12Observe(srv *httpserver.Server, path, probe string, ae bool, inner []byte) string {
+	r := httptest.NewRequest("GET", "http://127.0.0.1"+path, nil)
+	if probe != "" {
+		r.Header.Set("X-Probe", probe)
+	}
+	if ae {
+		r.Header.Set("Accept-Encoding", "gzip")
+	}
+	w := &c12Writer{h: http.Header{}}
+	srv.ServeHTTP(w, r)
+	cl := "-"
+	if w.snap != nil {
+		if v := w.snap.Values("Content-Length"); len(v) > 0 {
+			if len(v) == 1 && v[0] == strconv.Itoa(w.body.Len()) {
+				cl = "="
+			} else {
+				cl = "!"
+			}
+		}
+	}
+	return fmt.Sprintf("%d %d %s %s", w.commits, w.status, cl, c12Body(w, inner))
+}
+
+var c12FollowProbe = c12Write("200", "tok", 0, 1, "w")
+
+// c12FollowUps: the two follow-up requests, observed in full.
+func c12FollowUps(srv *httpserver.Server) string {
+	return c12Observe(srv, "/ok.txt", "", false, []byte(c12Follow)) + " | " +
+		c12Observe(srv, "/x.html", c12FollowProbe, true, []byte(c12Bodies["tok"]))
+}
+
+func c12Key(stackField string) string {
+	var stack []string
+	if stackField != "" {
+		stack = strings.Split(stackField, ",")
+	}
+	sort.Strings(stack)
+	return strings.Join(stack, ",")
+}
+
 func c12Eval(f []string) (string, []string) {
 	if len(f) != 4 {
 		return "bad-case", nil
@@ -471,11 +521,12 @@ func c12Eval(f []string) (string, []string) {
 	}
 	out := fmt.Sprintf("%d %d %s %s", w.commits, w.status, cl, c12Body(w, inner))
 
-	// the server keeps serving: a plain request right after
-	fw := &c12Writer{h: http.Header{}}
-	srv.ServeHTTP(fw, httptest.NewRequest("GET", "http://127.0.0.1/ok.txt", nil))
+	// only that request is affected: the follow-up requests (a plain file, and a template
+	// rendered and gzip-compressed, which goes through the pooled buffer and the pooled gzip
+	// writer) must be answered exactly as a fresh instance of the same site answered them
 	follow := "ok"
-	if fw.commits != 1 || fw.status != 200 || fw.body.String() != c12Follow {
+	key := c12Key(f[0])
+	if got := c12FollowUps(srv); got != c12Base[key] || !strings.HasPrefix(got, "1 200 = r:inner:"+hx.HS(c12Follow)) {
 		follow = "bad"
 	}
 	tags := []string{sp[0], "path=" + f[1]}
@@ -659,6 +710,31 @@ func c12LiveEval(f []string) (string, []string) {
 		return "bad-case", nil
 	}
 	sp := strings.Split(f[3], ":")
+	key := c12Key(f[0])
+	follow := func(t *http.Transport) string {
+		st, _, _, b, err := c12Get(t, addr, "/ok.txt", "", false)
+		if err != nil || st != 200 || string(b) != c12Follow {
+			return "bad"
+		}
+		// a rendered, compressed template: compared with what the fresh site answered
+		st2, ce2, _, b2, err := c12Get(t, addr, "/x.html", c12FollowProbe, true)
+		got := fmt.Sprintf("%d %s", st2, c12Classify(ce2, b2, []byte(c12Bodies["tok"])))
+		if err != nil {
+			got = "ERR"
+		}
+		if base, ok := c12BaseLive[key]; !ok {
+			c12BaseLive[key] = got
+		} else if base != got {
+			return "bad"
+		}
+		return "ok"
+	}
+	if _, ok := c12BaseLive[key]; !ok {
+		// first use of this (fresh) instance in this stream: record its answers
+		trb := &http.Transport{DisableCompression: true}
+		follow(trb)
+		trb.CloseIdleConnections()
+	}
 	tr := &http.Transport{DisableCompression: true, MaxIdleConnsPerHost: 1}
 	defer tr.CloseIdleConnections()
 	st, ce, declared, body, err := c12Get(tr, addr, path, f[3], f[2] == "1")
@@ -671,13 +747,6 @@ func c12LiveEval(f []string) (string, []string) {
 			cl = "!"
 		}
 		out = fmt.Sprintf("%d %s %s", st, cl, c12Classify(ce, body, inner))
-	}
-	follow := func(t *http.Transport) string {
-		st, _, _, b, err := c12Get(t, addr, "/ok.txt", "", false)
-		if err != nil || st != 200 || string(b) != c12Follow {
-			return "bad"
-		}
-		return "ok"
 	}
 	f1 := follow(tr)
 	tr2 := &http.Transport{DisableCompression: true}
